@@ -550,13 +550,24 @@ def reintroduced_index_chains():
 
 def campaigns(tier):
     return [
-        Campaign("dataset", body, cases(max_funcs=3 if tier == "quick" else 4), quick=600, thorough=12000,
+        Campaign("dataset", body, cases(max_funcs=3 if tier == "quick" else 4), quick=500, thorough=12000,
                  describe="C01 programs (rank <= 2, no autogen): dataset both ways, dims/values/coordinates/selection"),  # fmt: skip
-        Campaign("zip", body, cases(root_pools=(2, 4), extra_roots=(1, 2)), quick=600, thorough=12000,
+        Campaign("zip", body, cases(root_pools=(2, 4), extra_roots=(1, 2)), quick=500, thorough=12000,
                  describe="same plus 1-2 extra 1-D roots zipped into functions on an index they already name: zipped coordinates, zip x outer, zip with intermediates"),  # fmt: skip
         Campaign("reintroduced-index", body, enumerate=reintroduced_index_chains, quick=0, thorough=0, exhaustive=True,
                  describe="all 96 four-function chains in which an index is reduced away and introduced again by another root"),  # fmt: skip
     ]
 
 
-PREDICATES = {}
+def _pred_never_named(case, failure) -> bool:
+    """C19 finding (same root cause as C06-axis-never-named): mapspec_axes cannot name an axis that is ':' in every
+    MapSpec mentioning a >= 2-D array; both dataset constructors then crash or attach a 2-D array as a 1-D coordinate."""
+    return "[sliced-axis-never-named]" in failure.bucket and bool(never_named_axis(case["data"]["prog"]))
+
+
+def _pred_zip2d(case, failure) -> bool:
+    """C19 finding: two >= 2-D arrays zipped on the same axes are fed to pandas.MultiIndex.from_arrays (unsupported)."""
+    return "[zip-of-2d-arrays]" in failure.bucket and zip_of_2d(case["data"]["prog"], case["data"].get("load_intermediate", True))
+
+
+PREDICATES = {"never_named_axis": _pred_never_named, "zip_of_2d_arrays": _pred_zip2d}
